@@ -84,6 +84,12 @@ CHECKS["C15"] = {
     "technique": "symbolic execution (CrossHair/z3) of _parse_stages on symbolic lists and of the stage gates of the real evaluation",
 }
 
+CHECKS["C11"] = {
+    "text": "(1) Kernel: non_terminal_leaves on lists of 3 paths (1..3 segments) and 4 paths (1..2 segments) whose lengths, segments and order are solver variables - the result is non-empty exactly when some path is a strict segment-prefix of another. (2) The rejection path of the real evaluation for a pipeline with three kept paths at different nesting positions, the paths chosen by the solver, on a cold and on a populated store: OVERLAPPING_PATH, no user function executed, blobs and paths untouched; non-overlapping paths evaluate to the plain value. (3) Finite families of generated programs (enumeration): call cycles of length 1..3 through plain calls / dds.keep / higher-order references => CIRCULAR_CALL, dds.eval nested at depth 1..3 => EVAL_IN_EVAL, nothing executed, store untouched.",
+    "design_ref": "DESIGN.md 5-C11",
+    "technique": "symbolic execution (CrossHair/z3) of the overlap kernel on symbolic path lists and of the evaluation's rejection path with solver-chosen kept paths; enumerated cyclic / nested-eval programs",
+}
+
 NOT_APPLICABLE = {}
 
 
